@@ -27,6 +27,7 @@ class Meter:
         self.budget = 1 << 62
         self.tripped = False
         self.where = None
+        self.last_loop = None
         self.active = False
         self._installed = False
 
@@ -46,7 +47,7 @@ class Meter:
             if self.count > self.budget:
                 self.tripped = True
                 if self.where is None:
-                    self.where = code.co_qualname
+                    self.where = self.last_loop or code.co_qualname
                 raise StepBudgetExceeded(code.co_qualname)
 
         def on_jump(code, src, dst):
@@ -55,15 +56,31 @@ class Meter:
             if not self.active:
                 return None
             self.count += 1
+            if dst < src:
+                self.last_loop = code.co_qualname
             if self.count > self.budget:
                 self.tripped = True
                 if self.where is None:
-                    self.where = code.co_qualname
+                    # name the function that owns the most recent loop
+                    # back-edge: stable wherever in the loop body we stop
+                    self.where = self.last_loop or code.co_qualname
+                raise StepBudgetExceeded(code.co_qualname)
+
+        def on_branch(code, src, dst):
+            if not is_lib(code.co_filename):
+                return DISABLE
+            if not self.active:
+                return None
+            self.count += 1
+            if self.count > self.budget:
+                self.tripped = True
+                if self.where is None:
+                    self.where = self.last_loop or code.co_qualname
                 raise StepBudgetExceeded(code.co_qualname)
 
         mon.register_callback(TOOL, E.PY_START, on_start)
         mon.register_callback(TOOL, E.JUMP, on_jump)
-        mon.register_callback(TOOL, E.BRANCH, on_jump)
+        mon.register_callback(TOOL, E.BRANCH, on_branch)
         mon.set_events(TOOL, E.PY_START | E.JUMP | E.BRANCH)
         self._installed = True
 
@@ -80,6 +97,7 @@ class Meter:
         self.budget = budget
         self.tripped = False
         self.where = None
+        self.last_loop = None
         self.active = True
         try:
             v = fn(arg)
